@@ -139,6 +139,9 @@ func Run(prefix []int, eager bool, maxSteps int, mains []func(), names []string)
 func (e *Exec) newThread(name string, daemon bool, prio int, fn func()) *Thread {
 	t := &Thread{ID: len(e.threads), Name: name, Daemon: daemon, Prio: prio, wake: newHandoff(), fn: fn}
 	e.threads = append(e.threads, t)
+	// the goroutine is created by the spawning thread right away (parked until scheduled), so that
+	// the only happens-before edge into the new thread is the one a real `go` statement has
+	e.start(t)
 	return t
 }
 
